@@ -698,6 +698,41 @@ func c13Apply(s *treeState, schema *ytypes.Schema, op Op) *Violation {
 			sopts = append(sopts, &ytypes.IgnoreExtraFields{})
 			s.st.Probes["request_with_ignore_extra_fields"]++
 		}
+		if op.arg("opt") == "ignore-extra" {
+			// IgnoreExtraFields concerns unknown members only, and this request has none: on two
+			// copies of the tree the request must have the same outcome with and without it,
+			// whatever other option accompanies it (PreferShadowPath here: options travel together
+			// from the call down to every payload)
+			var res [2]string
+			for i := range res {
+				cp := model.Clone(s.root).(ygot.GoStruct)
+				sc := &ytypes.Schema{Root: cp, SchemaTree: schema.SchemaTree, Unmarshal: schema.Unmarshal}
+				o := []ytypes.UnmarshalOpt{&ytypes.PreferShadowPath{}}
+				if i == 1 {
+					o = append(o, &ytypes.IgnoreExtraFields{})
+				}
+				var e2 error
+				if p := callSUT(func() { e2 = ytypes.UnmarshalSetRequest(sc, req, o...) }); p != nil {
+					return violation("C13", "panic", "C13:panic:setreq", "%s (PreferShadowPath) panicked: %v\n%s", desc, p.v, trimStack(p.stack))
+				}
+				if e2 != nil {
+					res[i] = "error"
+					continue
+				}
+				res[i] = model.Walk(sc.Root, s.sch, "").Fingerprint()
+			}
+			s.st.Probes["option_pair_shadow_ignore_extra"]++
+			if res[0] != "error" {
+				s.st.Probes["option_pair_shadow_ignore_extra_applied"]++
+			}
+			if res[0] != res[1] {
+				d := []string{res[0], res[1]}
+				if res[0] != "error" && res[1] != "error" {
+					d = model.DiffFlat(flatOf(res[0]), flatOf(res[1]), 4)
+				}
+				return violation("C13", "option-dependence", "C13:option-pair:shadow+ignore-extra", "%s without unknown members gives another tree with {PreferShadowPath, IgnoreExtraFields} than with {PreferShadowPath}: %v", desc, d)
+			}
+		}
 		if p := callSUT(func() { err = ytypes.UnmarshalSetRequest(schema, req, sopts...) }); p != nil {
 			return violation("C13", "panic", "C13:panic:setreq", "%s panicked: %v\n%s", desc, p.v, trimStack(p.stack))
 		}
